@@ -45,6 +45,19 @@ enum Agg {
     First,
     Last,
     Max,
+    Min,
+    /// max_by_key / min_by_key / max_by / min_by with the scrambling key (v * 7) % 13
+    MaxByKey,
+    MinByKey,
+    MaxBy,
+    MinBy,
+    /// fold(0, acc * 3 + v): sensitive to the order inside the window
+    Fold,
+    FoldFirst,
+}
+
+fn scramble(v: &i64) -> i64 {
+    (v * 7) % 13
 }
 
 fn apply(agg: Agg, g: &[i64]) -> Vec<i64> {
@@ -55,6 +68,11 @@ fn apply(agg: Agg, g: &[i64]) -> Vec<i64> {
         Agg::First => vec![g[0]],
         Agg::Last => vec![*g.last().unwrap()],
         Agg::Max => vec![*g.iter().max().unwrap()],
+        Agg::Min => vec![*g.iter().min().unwrap()],
+        Agg::MaxByKey | Agg::MaxBy => vec![*g.iter().max_by_key(|v| scramble(v)).unwrap()],
+        Agg::MinByKey | Agg::MinBy => vec![*g.iter().min_by_key(|v| scramble(v)).unwrap()],
+        Agg::Fold => vec![g.iter().fold(0i64, |a, v| (a * 3 + v) % 1_000_003)],
+        Agg::FoldFirst => vec![g[1..].iter().fold(g[0], |a, v| (a * 3 + v) % 1_000_003)],
     }
 }
 
@@ -67,6 +85,13 @@ fn run_real(script: Vec<El<(i64, i64)>>, n: usize, s: usize, exact: bool, agg: A
         Agg::First => drive(w.first().map(|(_, v)| vec![v]).0.verif_into_chain().chain),
         Agg::Last => drive(w.last().map(|(_, v)| vec![v]).0.verif_into_chain().chain),
         Agg::Max => drive(w.max().map(|(_, v)| vec![v]).0.verif_into_chain().chain),
+        Agg::Min => drive(w.min().map(|(_, v)| vec![v]).0.verif_into_chain().chain),
+        Agg::MaxByKey => drive(w.max_by_key(scramble).map(|(_, v)| vec![v]).0.verif_into_chain().chain),
+        Agg::MinByKey => drive(w.min_by_key(scramble).map(|(_, v)| vec![v]).0.verif_into_chain().chain),
+        Agg::MaxBy => drive(w.max_by(|a, b| scramble(a).cmp(&scramble(b))).map(|(_, v)| vec![v]).0.verif_into_chain().chain),
+        Agg::MinBy => drive(w.min_by(|a, b| scramble(a).cmp(&scramble(b))).map(|(_, v)| vec![v]).0.verif_into_chain().chain),
+        Agg::Fold => drive(w.fold(0i64, |a, v| *a = (*a * 3 + v) % 1_000_003).map(|(_, v)| vec![v]).0.verif_into_chain().chain),
+        Agg::FoldFirst => drive(w.fold_first(|a, v| *a = (*a * 3 + v) % 1_000_003).map(|(_, v)| vec![v]).0.verif_into_chain().chain),
     }
 }
 
@@ -168,8 +193,21 @@ fn build(tier: Tier) -> Vec<Scenario> {
                     (Agg::First, false),
                     (Agg::Last, false),
                     (Agg::Max, false),
+                    (Agg::Min, false),
+                    (Agg::MaxByKey, false),
+                    (Agg::MinByKey, true),
+                    (Agg::MaxBy, false),
+                    (Agg::MinBy, false),
+                    (Agg::Fold, true),
+                    (Agg::FoldFirst, false),
                 ] {
-                    let len = if agg == Agg::Collect { maxlen } else { maxlen - 2 };
+                    let len = if agg == Agg::Collect {
+                        maxlen
+                    } else if matches!(agg, Agg::Sum | Agg::Count | Agg::First | Agg::Last | Agg::Max) {
+                        maxlen - 2
+                    } else {
+                        maxlen - 3
+                    };
                     // (thorough: the full length only for the collecting aggregator)
                     let name = format!("C12/N{n}-S{s}-exact{exact}-{agg:?}-ts{ts}-len{len}");
                     out.push(loop_scenario(
